@@ -703,7 +703,9 @@ class ChoiceEncoder(AbstractItemEncoder):
             name = names[0]
 
             component = value[name]
-            asn1Spec = asn1Spec[name]
+            # look the alternative's type up in the schema without touching
+            # the schema object (indexing a CHOICE selects an alternative)
+            asn1Spec = asn1Spec.componentType[name].asn1Object
 
         return encodeFun(component, asn1Spec, **options), True, True
 
